@@ -10,8 +10,9 @@ type Emit<'a> = &'a mut dyn FnMut(String, String);
 pub fn expr(rng: &mut Rng, count: u64, mutate: bool, emit: Emit) {
     for _ in 0..count {
         let depth = rng.range(1, 5) as u32;
-        let (prog, _sc) = gen::expr_program(rng, depth, mutate);
-        let out = run_program(&prog.text, 1, &[], &format!("(text {})", sexp_escape(&prog.text)));
+        let (prog, sc) = gen::expr_program(rng, depth, mutate);
+        let tags = if sc.counts.contains_key("nested-case-condition") { "(tags nested-case-condition) " } else { "" };
+        let out = run_program(&prog.text, 1, &[], &format!("{}(text {})", tags, sexp_escape(&prog.text)));
         match out.request {
             Some(req) => emit(req, out.result),
             None => emit(format!("(noparse {})", sexp_escape(&prog.text)), out.result),
@@ -57,6 +58,19 @@ pub fn prog_faulty(rng: &mut Rng, count: u64, kind: &str, emit: Emit) {
                 let mut idx: Vec<usize> = (0..pool.len()).collect();
                 rng.shuffle(&mut idx);
                 let n = rng.range(2, 3) as usize;
+                // now and then a long batch of diagnostics of one kind (more than ten wires never assigned, or read without
+                // being declared): every one of them is reported, whatever order the tables are walked in
+                if rng.chance(1, 6) {
+                    let many = rng.range(11, 24);
+                    let undeclared = rng.chance(1, 2);
+                    let mut text = String::new();
+                    for i in 0..many {
+                        if undeclared { text.push_str(&format!("wire mq{}:8; mq{} = ghost_q{} + 1; ", i, i, i)); }
+                        else { text.push_str(&format!("wire mq{}:8; ", i)); }
+                    }
+                    let atq = rng.below(g.stmts.len() as u64 + 1) as usize;
+                    g.stmts.insert(atq, proggen::Stmt::Raw(text));
+                }
                 let at0 = rng.below(g.stmts.len() as u64 + 1) as usize;
                 g.stmts.insert(at0, proggen::Stmt::Raw(String::from("wire mfa:8, mfb:4; mfa = 1; mfb = 2;")));
                 for k in 0..n {
@@ -235,7 +249,7 @@ pub fn dump(rng: &mut Rng, count: u64, emit: Emit) {
             let mut assigns = String::new();
             for r in 0..nregs {
                 let w = if rng.chance(1, 10) { 0 } else { rng.range(1, 128) };
-                let len = match rng.below(5) { 0 => 1, 1 => rng.range(20, 60), _ => rng.range(2, 9) } as usize;
+                let len = match rng.below(5) { 0 => 1, 1 => rng.range(20, 80), _ => rng.range(2, 9) } as usize;
                 let mut rname = format!("r{}", r);
                 while rname.len() < len { rname.push(*rng.pick(&['a', 'Z', '_', '9', 'q'])); }
                 if rng.chance(1, 15) { rname.push('\u{e9}'); }
@@ -818,7 +832,7 @@ pub fn anytext(rng: &mut Rng, count: u64, emit: Emit) {
     let toks: [&str; 43] = ["wire", "const", "register", "in", "x", "pc", "Stat", "=", "==", ";", ":", ",", "(", ")", "[", "]", "{", "}", "..",
         "+", "-", "*", "/", "&&", "||", "!", "~", "<", ">>", "0", "1", "0b101", "0x1f", "8", "é", "€", "/*", "*/", "#", "\"", "\u{b2}", "\u{663}", "\u{bd}"];
     for _ in 0..count {
-        let mode = rng.below(11);
+        let mode = rng.below(12);
         let mut bytes: Vec<u8> = if mode == 0 { random_text(rng).into_bytes() } else if mode == 8 {
             // a half-wired built-in component whose enable signal is a constant expression of any kind
             let nasty: [&str; 16] = ["0b11[3..1]", "1/0", "[0:1]", "0b11 && 1", "(0xffffffffffffffffffffffffffffffff .. 0b1)", "[1 : 0x100; 0 : 0b1]",
@@ -859,6 +873,21 @@ pub fn anytext(rng: &mut Rng, count: u64, emit: Emit) {
                 let at = rng.below(g.stmts.len() as u64 + 1) as usize;
                 g.stmts.insert(at, proggen::Stmt::Raw(stmt));
             }
+            if mode == 11 {
+                // case expressions of every shape: three to six arms of widths 3, 5 or unsized, each condition either the
+                // constant 1 or a comparison; all the diagnostics about them (widths disagree, no / several defaults, arms
+                // after the default) must render
+                let narms = rng.range(3, 6);
+                let mut arms = String::new();
+                for _ in 0..narms {
+                    let cond = if rng.chance(1, 3) { String::from("1") } else { format!("zz8 == {}", rng.below(4)) };
+                    let val = *rng.pick(&["0b001", "0b00001", "2", "0b101", "zz8", "0b00010"][..]);
+                    arms.push_str(&format!(" {} : {};", cond, val));
+                }
+                let stmt = format!("wire zz8:3; zz8 = 1; wire zz9:{}; zz9 = [{} ];", rng.pick(&[3, 5, 8][..]), arms);
+                let at = rng.below(g.stmts.len() as u64 + 1) as usize;
+                g.stmts.insert(at, proggen::Stmt::Raw(stmt));
+            }
             proggen::render_program(&g.stmts).into_bytes()
         };
         let mut how = String::from("soup");
@@ -867,6 +896,7 @@ pub fn anytext(rng: &mut Rng, count: u64, emit: Emit) {
                 8 => { how = String::from("half-wired-component"); }
                 9 => { how = String::from("fault-injected"); }
                 10 => { how = String::from("huge-slice-bounds"); }
+                11 => { how = String::from("case-expression-shapes"); }
                 1 => { let cut = rng.below(bytes.len() as u64 + 1) as usize; bytes.truncate(cut); how = String::from("truncated"); }
                 2 | 3 | 4 => {
                     // edit at a blank: insert, delete or substitute one token
